@@ -286,7 +286,8 @@ func (s *shpModel) reflectStub(name string, f *types.Func, recv oval, args []ova
 		}
 		p, isP := r.get().(oPtr)
 		if !isP || p.s == nil {
-			return top("reflect.Indirect of a nil pointer")
+			s.problem("C20.R5", "reflect: a nil pointer field is followed (Elem/Indirect of nil, then a field access) — the real call panics")
+			return top("panic: reflect: call on zero Value")
 		}
 		return []oval{s.rvalue(&rval{t: pt.Elem(), get: func() oval { return p.s }, canSet: true})}, true
 	}
@@ -475,8 +476,40 @@ func (s *shpModel) reflectStub(name string, f *types.Func, recv oval, args []ova
 			return setScalar(reflect.Int, reflect.Int64, reflect.Int32)
 		case "SetString":
 			return setScalar(reflect.String)
-		case "Float", "Int", "String":
+		case "Float", "Int", "String", "Bool", "Uint":
 			return []oval{r.get()}, true
+		case "Len":
+			switch x := r.get().(type) {
+			case oSlice:
+				return []oval{oInt(x.length())}, true
+			case oMap:
+				if x.keys == nil {
+					return []oval{oInt(0)}, true
+				}
+				return []oval{oInt(len(*x.keys))}, true
+			case oNil:
+				return []oval{oInt(0)}, true
+			}
+			return top("panic: reflect: Len of " + showVal(r.get()))
+		case "Index":
+			sl, ok := r.get().(oSlice)
+			i, oki := args[0].(oInt)
+			if !ok || !oki {
+				return top("reflect.Value.Index of " + showVal(r.get()))
+			}
+			if int(i) < 0 || int(i) >= sl.length() {
+				s.problem("C20.R5", "reflect: Index(%d) on a slice of length %d — the real call panics", int(i), sl.length())
+				return top("panic: reflect: slice index out of range")
+			}
+			var et types.Type
+			switch u := r.t.Underlying().(type) {
+			case *types.Slice:
+				et = u.Elem()
+			case *types.Array:
+				et = u.Elem()
+			}
+			idx := int(i)
+			return []oval{s.rvalue(&rval{t: et, canSet: true, get: func() oval { return sl.at(idx) }, set: func(v oval) { sl.set(idx, v) }})}, true
 		}
 		return top("reflect.Value method " + name + " is not modelled")
 	}
@@ -492,6 +525,9 @@ var hostPureFuncs = map[string]interface{}{
 	"strings.HasSuffix": strings.HasSuffix, "strings.EqualFold": strings.EqualFold, "strings.Index": strings.Index,
 	"strings.IndexByte": strings.IndexByte, "strings.Contains": strings.Contains, "strings.Repeat": strings.Repeat,
 	"strings.Title": strings.Title, "strings.Compare": strings.Compare, "strings.LastIndex": strings.LastIndex,
+	"strings.Split": strings.Split, "strings.SplitN": strings.SplitN, "strings.Fields": strings.Fields, "strings.Replace": strings.Replace,
+	"strings.ReplaceAll": strings.ReplaceAll, "strings.Join": strings.Join, "strings.Count": strings.Count, "strings.IndexAny": strings.IndexAny,
+	"strings.ContainsAny": strings.ContainsAny, "strings.LastIndexByte": strings.LastIndexByte, "strings.SplitAfter": strings.SplitAfter,
 	"bytes.Trim": bytes.Trim, "bytes.Index": bytes.Index, "bytes.IndexByte": bytes.IndexByte,
 	"bytes.TrimSpace": bytes.TrimSpace, "bytes.TrimRight": bytes.TrimRight, "bytes.TrimLeft": bytes.TrimLeft,
 	"bytes.Equal": bytes.Equal, "bytes.ToLower": bytes.ToLower, "bytes.HasPrefix": bytes.HasPrefix, "bytes.HasSuffix": bytes.HasSuffix,
@@ -503,8 +539,6 @@ var hostPureFuncs = map[string]interface{}{
 		return ""
 	},
 }
-
-
 
 // hostPure evaluates a text function of the standard library on concrete strings and integers.
 func (s *shpModel) hostPure(f *types.Func, args []oval) ([]oval, bool) {
@@ -535,6 +569,22 @@ func (s *shpModel) hostPure(f *types.Func, args []oval) ([]oval, bool) {
 			}
 			in[i] = reflect.ValueOf(str)
 		case reflect.Slice:
+			if rt.In(i).Elem().Kind() == reflect.String {
+				var strs []string
+				if sl, ok := a.(oSlice); ok {
+					for k := 0; k < sl.length(); k++ {
+						e, ok := strOf(sl.at(k))
+						if !ok {
+							return top(f.FullName() + " of a non-concrete string list")
+						}
+						strs = append(strs, e)
+					}
+				} else if _, isNil := a.(oNil); !isNil {
+					return top(f.FullName() + " of " + showVal(a))
+				}
+				in[i] = reflect.ValueOf(strs)
+				break
+			}
 			if _, isNil := a.(oNil); isNil {
 				in[i] = reflect.ValueOf([]byte(nil))
 				break
@@ -569,6 +619,18 @@ func (s *shpModel) hostPure(f *types.Func, args []oval) ([]oval, bool) {
 		case reflect.String:
 			res[i] = strVal(rtT, o.String())
 		case reflect.Slice:
+			if o.Type().Elem().Kind() == reflect.String {
+				var et types.Type = types.Typ[types.String]
+				if st, ok := rtT.Underlying().(*types.Slice); ok {
+					et = st.Elem()
+				}
+				vals := make([]oval, o.Len())
+				for k := range vals {
+					vals[k] = strVal(et, o.Index(k).String())
+				}
+				res[i] = oSlice{typ: rtT, arr: &vals, lo: 0, hi: len(vals), capEnd: len(vals)}
+				break
+			}
 			res[i] = strVal(rtT, string(o.Bytes()))
 		case reflect.Bool:
 			res[i] = oBool(o.Bool())
@@ -1383,7 +1445,7 @@ func c16model(c *Ctx, p *pkgT) {
 				case "R1":
 					row.setBad("%s", msg)
 				case "R2":
-					facet("parts:" + tn).setBad("%s", msg)
+					facet("parts:"+tn).setBad("%s", msg)
 				case "R3":
 					facet("closing").setBad("%s", msg)
 				case "R4":
